@@ -2,20 +2,20 @@
 # maintainer helper: verify and store a seeded change  (usage: collect_seed.sh <prop> <seed-name> <checks...>)
 # verifies: unedited suite passes with the change; demo fails with it and passes on /repo; runs the named checks against the changed copy
 P=$1; NAME=$2; shift 2
-W=/tmp/seed/$P; O=/tmp/seed/${P}_out; D=/verif/seeded/$NAME
+R=${SEEDROOT:-/tmp/seed}; W=$R/$P; O=$R/${P}_out; D=/verif/seeded/$NAME
 mkdir -p $D; cp $O/patch.diff $O/demo.py $D/; 
 suite=$(cd $W && /venv/bin/python -m pytest -q -p no:cacheprovider --timeout=900 2>&1 | tail -1)
-/venv/bin/python -W ignore $O/demo.py /repo > /tmp/seed/demo_clean.out 2>&1; rc_clean=$?
-/venv/bin/python -W ignore $O/demo.py $W > /tmp/seed/demo_seeded.out 2>&1; rc_seed=$?
+/venv/bin/python -W ignore $O/demo.py /repo > $R/demo_clean.out 2>&1; rc_clean=$?
+/venv/bin/python -W ignore $O/demo.py $W > $R/demo_seeded.out 2>&1; rc_seed=$?
 res=""
 for c in "$@"; do
   out=$(cd /verif && VERIF_REPO=$W ./check $c 2>&1 | grep -E "VIOLATION|^OK|CHECK-ERROR" | tr '\n' ';')
   res="$res $c: $out"
 done
 /venv/bin/python - "$P" "$NAME" "$suite" "$rc_clean" "$rc_seed" "$res" <<'PY'
-import json,sys
+import json,sys,os
 P,NAME,suite,rc_clean,rc_seed,res=sys.argv[1:7]
-m=json.load(open(f"/tmp/seed/{P}_out/meta.json"))
+m=json.load(open(os.environ.get("SEEDROOT","/tmp/seed")+f"/{P}_out/meta.json"))
 m.update(property=P, lead_verification=dict(suite_with_change=suite, demo_exit_on_repo=int(rc_clean), demo_exit_with_change=int(rc_seed),
          checks_against_changed_copy=res.strip(), how="worktree of /repo HEAD with the patch applied; checks run with VERIF_REPO=<worktree>"))
 json.dump(m,open(f"/verif/seeded/{NAME}/meta.json","w"),indent=1)
